@@ -11,7 +11,7 @@ git -C /repo worktree add -q --detach "$W" "$BASE" || exit 2
 echo "SEEDRUN $(basename "$D"): base commit $BASE"
 cleanup() { git -C /repo worktree remove --force "$W" 2>/dev/null; rm -rf "$W" "${W}_demo.py" "${W}_demo.out"; }
 trap cleanup EXIT
-DEMO="${W}_demo.py"; sed "s|/tmp/seed_[A-Za-z0-9_]*|$W|g" "$D/demo.py" > "$DEMO"
+mkdir -p "$W/seed_demo"; DEMO="$W/seed_demo/demo.py"; sed "s|/tmp/seed_[A-Za-z0-9_]*|$W|g" "$D/demo.py" > "$DEMO"
 run_demo() { (cd "$W" && PYTHONPATH="$W" timeout 1800 /venv/bin/python "$DEMO" > "${W}_demo.out" 2>&1; echo $?); }
 r0=$(run_demo)
 if ! git -C "$W" apply "$D/patch.diff"; then echo "SEEDRUN: patch does not apply to HEAD"; exit 2; fi
